@@ -21,13 +21,14 @@ Alphabet(cls) ==
     E("delslice", 0, 0, 0, "::2", <<>>),
     E("setitem", 4, 0, 0, "", <<>>), E("setitem", 1, 0, -1, "", <<>>), E("setitem", 2, 0, 1, "", <<>>),
     E("setslice", 0, 0, 0, ":2", <<3, 4>>), E("setslice", 0, 0, 0, "0:1", <<2>>), E("setslice", 0, 0, 0, ":2", <<4, 4>>),
-    E("setslice", 0, 0, 0, "::2", <<1, 3>>),
+    E("setslice", 0, 0, 0, "::2", <<1, 3>>), E("setslice", 0, 0, 0, "::-2", <<2, 4>>), E("delslice", 0, 0, 0, "::-2", <<>>),
+    E("delslice", 0, 0, 0, "3:0:-2", <<>>),
     E("reverse", 0, 0, 0, "", <<>>), E("clear", 0, 0, 0, "", <<>>), E("copy", 0, 0, 0, "", <<>>),
     E("ior", 0, 0, 0, "", <<3, 1>>), E("iand", 0, 0, 0, "", <<1, 3>>), E("isub", 0, 0, 0, "", <<2, 4>>),
     E("ixor", 0, 0, 0, "", <<1, 4>>), E("extend", 0, 0, 0, "", <<2, 3>>)>>
   \* linqset offers wedge and no sort (the linked implementation has no in-place sort)
   \o (IF cls = "linqset" THEN <<E("wedge", 3, 1, 1, "", <<>>), E("wedge", 4, 2, -1, "", <<>>)>>
-      ELSE <<E("sort", 0, 0, 0, "", <<>>)>>)
+      ELSE <<E("sort", 0, 0, 0, "", <<>>), E("sortkr", 0, 0, 0, "", <<>>)>>)
   \* predicate store: bulk replacements whose arriving values conflict with TWO different members, of which the
   \* replaced slice may hold both, one or none
   \o (IF cls = "Predicates" THEN <<E("setslice", 0, 0, 0, ":2", <<2, 5>>), E("setslice", 0, 0, 0, "::2", <<5, 2>>),
